@@ -13,6 +13,14 @@ Theorem C06_readback : forall (b : backend) kq ku (t : str),
 Proof. exact unquote_quote_roundtrip. Qed.
 Print Assumptions C06_readback.
 
+(** a query key or value canonicalised by the query-part quoter reads back through
+    urllib's parse_qsl decoder ('+' as space, errors="replace") as the text itself *)
+From Yarl Require Import Model.Query Proofs.QueryRoundtrip.
+Theorem C06_query_part_readback : forall t : str,
+  valid_str t -> no_sur t -> py_unquote (plus_to_space (qspec QP t)) = t.
+Proof. exact parse_part_roundtrip. Qed.
+Print Assumptions C06_query_part_readback.
+
 (** the strict UTF-8 classifier of the unquoters accepts exactly the encoder's output:
     every proper prefix of the encoding is a prefix, the whole sequence is the character
     (2-, 3- and 4-byte classes; all Unicode scalar values) *)
